@@ -126,7 +126,7 @@ pub fn parse_path(key: &str) -> Option<Vec<Seg>> {
                 return None;
             }
             let digits = &rest[..rest.len() - 1];
-            if digits.is_empty() || digits.len() > 9 || !digits.bytes().all(|b| b.is_ascii_digit()) {
+            if digits.is_empty() || digits.len() > 19 || !digits.bytes().all(|b| b.is_ascii_digit()) {
                 return None;
             }
             if name.contains(']') {
